@@ -14,6 +14,7 @@ import (
 )
 
 type Env struct {
+	fc        *FuncContract // contract whose clauses are being translated (macros, ghosts)
 	fx        *FnExec
 	cur       *State
 	old       *State            // function entry state, for old()
@@ -151,6 +152,16 @@ func (e *Env) ident(name string) Val {
 	}
 	if g, ok := eng.ghosts[name]; ok {
 		return Val{T: eng.ghostGet(e.cur, name), S: g}
+	}
+	if e.fc != nil {
+		for _, g := range e.fc.Ghosts {
+			if g == name {
+				if t, ok := e.cur.ghost["fg:"+e.fc.Key+":"+name]; ok {
+					return Val{T: t, S: "(Array Int Int)"}
+				}
+				e.fail("function ghost %s not available in this state", name)
+			}
+		}
 	}
 	// package-level constant or variable of the function's package
 	if e.pkg != nil {
@@ -340,7 +351,30 @@ func (e *Env) call(x *ast.CallExpr) Val {
 			fname = id.Name + "." + f.Sel.Name
 		}
 	}
+	if e.fc != nil && e.fc.Defines != nil {
+		if d, ok := e.fc.Defines[fname]; ok {
+			if len(d.Params) != len(x.Args) {
+				e.fail("macro %s expects %d arguments", fname, len(d.Params))
+			}
+			env := e
+			for i, pn := range d.Params {
+				env = env.bind(pn, e.tr(x.Args[i]))
+			}
+			return env.tr(d.Body)
+		}
+	}
 	switch fname {
+	case "lookup":
+		m := e.tr(x.Args[0])
+		k := e.tr(x.Args[1])
+		mt, ok := m.GT.Underlying().(*types.Map)
+		if !ok {
+			e.fail("lookup() of non-map")
+		}
+		eng.regMap(mt)
+		dom := sel(sel(eng.heapGet(e.cur, mapDom(mt)), m.T), k.T)
+		val := sel(sel(eng.heapGet(e.cur, mapVal(mt)), m.T), k.T)
+		return Val{T: ite(dom, val, eng.sorts.zero(mt.Elem())), S: eng.sorts.sortOf(mt.Elem()), GT: mt.Elem()}
 	case "old":
 		if e.old == nil {
 			e.fail("old() not available here")
